@@ -7,6 +7,7 @@ PROP = {
     "assumptions": [
         "time: the logger reads time.Now() itself; the harness places every call in the first half of its own cell of a time grid (tick >= 10 ms, expiry = k + 1/2 ticks) and discards and repeats histories whose before/after stamps leave the cell, so that every comparison with the expiry is decided by cell numbers; the model runs on integer timestamps and its theorems hold for all integers",
         "ties: lines whose last updates are equal are ordered by Go's map iteration / unstable sort; the model takes the order as an input of the operation (any permutation) and the theorems hold for every choice; harness histories never contain ties between different lines",
+        "integers: Go's int arithmetic (2*len(key), sizeRequired+logSizeBytes) is modelled in Z; it cannot overflow int64 for strings that fit in memory when logMaxBytes <= 2^62 (client.NewClient rejects logMaxBytes >= 1e8)",
         "configuration: 'no call panics' is proved for logMaxLineBytes >= 0 (a negative limit makes key[:limit] panic on every Printf -- proved as c18_negative_line_limit_panics; client.NewClient rejects such a configuration); sync.Mutex gives mutual exclusion (operations are atomic in the model)",
     ],
 }
